@@ -498,14 +498,59 @@ def solve(conds, timeout_s=60, exp_axioms=True, pair_axioms=True, want_smt2=Fals
     return last
 
 
+def _is_linear(b: BoolT) -> bool:
+    k = b.kind
+    if k in ("le0", "eq0"):
+        for m in b.args[0].terms:
+            if len(m) > 1 or (m and (m[0][1] != 1 or Atom._all[m[0][0]].kind != "var")):
+                return False
+        return True
+    if k in ("not", "and", "or"):
+        return all(_is_linear(a) for a in b.args)
+    return k == "const"
+
+
+def _slice(conds):
+    """The conditions connected to the last one (the branch decision) through shared atoms.  The
+    other components belong to a path prefix that was already found feasible, and a conjunction is
+    satisfiable iff each variable-disjoint component is."""
+    if len(conds) < 3:
+        return list(conds)
+    ids = [frozenset(a.id for a in T.collect_atoms([c])) for c in conds]
+    comp = set(ids[-1])
+    take = {len(conds) - 1}
+    changed = True
+    while changed:
+        changed = False
+        for k, s in enumerate(ids):
+            if k not in take and s & comp:
+                take.add(k)
+                comp |= s
+                changed = True
+    return [conds[k] for k in sorted(take)]
+
+
 def feasibility(timeout_s=5):
+    """Feasibility oracle for path exploration.  Only `unsat` prunes a branch; `unknown` is
+    explored (the obligations of such a path still carry the full path condition).  Cheap stages
+    first: the slice of conditions connected to the decision, its linear part alone (a relaxation:
+    `unsat` there is `unsat`), then the whole slice."""
     cache = {}
 
     def f(conds):
         key = tuple(sorted(c.id for c in conds))
         r = cache.get(key)
         if r is None:
-            r = solve(conds, timeout_s=timeout_s, levels=(1,)).verdict
+            sl = _slice(conds)
+            lin = [c for c in sl if _is_linear(c)]
+            if len(lin) == len(sl):
+                r = solve(sl, timeout_s=timeout_s, levels=(1,)).verdict
+            else:
+                r = solve(lin, timeout_s=2, levels=(1,)).verdict if lin else "sat"
+                if r != "unsat":
+                    # equalities that define a value (ideal linear solve, decided coincidences) are substituted first:
+                    # measured on the reservoir loops, z3 answers these in milliseconds and the raw form not at all
+                    r = solve(sl, timeout_s=timeout_s, levels=(1,), elim=True).verdict
             cache[key] = r
         return r
     return f
